@@ -3,6 +3,13 @@
 import json, os
 
 CLAIMED = {
+    "C14": ("Coq proof: exact layer (Z/Q) + IEEE-754 binary64 layer over Flocq (FloatIndex.v, HpFloat.v) + bit-exact correspondence; libm-dependent kinds checked on the implementation only",
+            "C14_float_index_range / C14_float_index_roundtrip: for EVERY finite binary64 probability in [0,1) and 1 <= n < 2^53 the float computation floor(p / fl(1/n)) clamped lies in [0,n), and the bucket centre "
+            "(i+0.5)*fl(1/n) maps back to i (n < 2^50). Hence at the float level: Int with linear sampling and any step always yields a lattice point min+i*step within [min,max] (C14_int_in_domain), every lattice value "
+            "round-trips (C14_int_roundtrip), the enumerated values are exactly the lattice incl. max iff step | max-min (C14_int_values, C14_max_on_lattice); Choice and Boolean likewise. Exact-layer versions without "
+            "bounds. PARTIAL: Float hyperparameters and log/reverse_log sampling go through libm pow/log and are checked on the implementation only (domain, lattice enumeration, round trip on every enumerated value, "
+            "determinism of random_sample) with adversarial probabilities. Tie: HpFloat.v evaluated inside Coq on 0, 1-2^-53, k/n +- 1 ulp, denormals, compared bit for bit.",
+            "Trusted: Coq kernel/vm_compute; axioms of the standard library's real numbers used by Flocq (sig_forall_dec, sig_not_dec, functional_extensionality_dep, classic); CPython floats are IEEE binary64 RNE; libm not modelled.", "DESIGN.md section 6 C14"),
     "C08": ("Coq proof over Crash.v (write-level protocol + restart procedure) + crash injection at write k on the real code with model correspondence of every write and every rebuilt state",
             "C08_restart_spec: from ANY directory content with a tuner file the restart rebuilds a state where nothing is handed out, every kept trial has exactly the status/score/payload of its file, files of a "
             "create that never completed are ignored, every trial that was handed out is queued again unless its file says it ended (then it is not re-run), queued trials stay queued once. C08_boundary: at operation "
